@@ -135,13 +135,17 @@ func checks() map[string]*Check {
 		Rule:   "W1 schedules with snapshots on (threshold 4-30 entries, payload padding 0 B .. 3.5 chunks, four state-machine delay profiles drawn from the seed); every locally taken snapshot is decoded at Close and compared with the canonical history at its label; every Apply is followed by a comparison of the replica state with the canonical state; every Restore is compared with a completed snapshot. Non-trivial: snapshots were taken while operations were applied",
 		Assume: clusterAssume})
 	m["C11"].Runs = append(m["C11"].Runs, RunSpec{Scen: "w1", Params: "snapshots=1,crash=1", Quick: 48, Thorough: 1200}, RunSpec{Scen: "w2.installcrash", Params: "snapshots=1", Quick: 32, Thorough: 800})
+	m["C11"].Runs = append(m["C11"].Runs, RunSpec{Scen: "puppet.ae", Params: "cases=60,snapthr=2", Quick: 16, Thorough: 400})
 	m["C11"].NT = func(r *Result) bool {
+		if r.Scen == "puppet.ae" {
+			return cnt(r, "log.compact") > 0 && cnt(r, "log.open") > cnt(r, "puppet.cases")
+		}
 		if r.Scen == "puppet.is" {
 			return cnt(r, "c11.probes") > 0 && cnt(r, "msg.IS") > 0
 		}
 		return cnt(r, "log.compact")+cnt(r, "log.discard") > 0
 	}
-	m["C11"].Rule += "; cluster runs (W1, snapshots on): non-trivial when a compaction or a discard happened"
+	m["C11"].Rule += "; cluster runs (W1, snapshots on): non-trivial when a compaction or a discard happened; puppet.ae with local snapshots (threshold 2): compaction, then conflict truncations of retained entries, then a crash/restart - the reloaded log must equal what the node held (non-trivial when a compaction and a reload happened)"
 	m["C11"].Assume = append(m["C11"].Assume, clusterAssume...)
 	m["C07"].Runs = append(m["C07"].Runs, RunSpec{Scen: "w1", Params: "snapshots=1,crash=1", Quick: 32, Thorough: 800})
 	m["C01"].Runs = append(m["C01"].Runs, RunSpec{Scen: "w1", Params: "snapshots=1,crash=1", Quick: 32, Thorough: 800})
@@ -151,6 +155,8 @@ func checks() map[string]*Check {
 	app("C01", RunSpec{Scen: "w2.takeover", Quick: 24, Thorough: 600}, RunSpec{Scen: "w2.figure8", Quick: 16, Thorough: 400}, RunSpec{Scen: "w2.staleinstall", Params: "snapshots=1,snapthr=6,pad=100", Quick: 24, Thorough: 600})
 	app("C01", RunSpec{Scen: "w2.exacthalf", Quick: 8, Thorough: 200}, RunSpec{Scen: "w1", Params: "hold=1,crash=0,voters=5,steps=40", Quick: 8, Thorough: 400})
 	app("C04", RunSpec{Scen: "w1", Params: "hold=1,crash=0,voters=5,steps=40", Quick: 8, Thorough: 400})
+	app("C08", RunSpec{Scen: "w2.stalereject", Quick: 12, Thorough: 300}, RunSpec{Scen: "w1", Params: "hold=1,crash=1,voters=3,steps=40", Quick: 8, Thorough: 400})
+	app("C02", RunSpec{Scen: "w2.stalereject", Quick: 8, Thorough: 200})
 	app("C02", RunSpec{Scen: "w1", Params: "hold=1,crash=1,voters=3,steps=40", Quick: 8, Thorough: 400})
 	app("C02", RunSpec{Scen: "w2.votes", Quick: 32, Thorough: 800})
 	app("C03", RunSpec{Scen: "w1", Params: "crash=0,bounce=1,applyin=1500,voters=3,clients=6", Quick: 24, Thorough: 600}, RunSpec{Scen: "w1", Params: "crash=0,bounce=1,applyin=1500,voters=1", Quick: 8, Thorough: 200}, RunSpec{Scen: "w2.deposed", Quick: 24, Thorough: 600}, RunSpec{Scen: "w2.bounce", Quick: 16, Thorough: 400}, RunSpec{Scen: "w2.takeover", Quick: 16, Thorough: 400})
